@@ -47,7 +47,7 @@ def run(run):
     C.build_driver()
     h, d = C.Harness(), C.Driver()
     rng = run.rng
-    quick = run.tier == "quick"
+    quick = run.depth == "quick"
     stats = collections.Counter()
     proj = E.small_project(rng, h, nfiles=2, extra={"src/Mk.java": "class Mk { void m() { Object a = new Foo(); Object b = new Bar(\"x\"); } }\n"})
     try:
